@@ -92,7 +92,10 @@ def number(rng, dp, nonneg=False, nonfinite_p=0.08, numpy_ok=False, limit=1e15):
         base = rng.uniform(-1, 1) * 10.0 ** rng.randint(-9, 4)
         v = rng.choice([np.float64(base), np.float32(base), np.float16(base), np.longdouble(base),
                         np.int64(int(base)), np.int32(int(base) % 1000), np.float32(0.1), np.float64(2.675),
-                        np.float32(base), np.float16(base)])
+                        np.float32(base), np.float16(base),
+                        # extremes of the fixed-width integer types (abs() of the minimum overflows)
+                        rng.choice([np.int8(-128), np.int16(-32768), np.int32(-2 ** 31), np.int8(127),
+                                    np.uint8(255), np.int16(32767), np.uint16(65535), np.int32(2 ** 31 - 1)])])
         if isinstance(v, np.floating) and not np.isfinite(v):
             v = np.float32(1.5)
         cls = "np:" + type(v).__name__
